@@ -66,6 +66,22 @@ def kinds(rootname):
         ("' ..' (leading space) then decoy", [b" ..", b"decoy"], "beside"),
         ("'..\\u00a0' (no-break space) then decoy", [b"..\xc2\xa0", b"decoy"], "beside"),
         ("decoy name padded: 'decoy ' beside", [b"..", b"decoy "], "beside"),
+        # added after seeded change C13-10 (screening by a regular expression whose `.` does not match a line feed): the
+        # escaping component also holds a line feed, a carriage return or a tab
+        ("../ and a line feed in one component", [b"../de\ncoy"], ("beside", b"de\ncoy")),
+        ("absolute component with a line feed", [S + b"/outside/de\ncoy"], ("sandbox", [b"outside", b"de\ncoy"])),
+        ("../ and a carriage return in one component", [b"../de\rcoy"], ("beside", b"de\rcoy")),
+        ("line feed first, then ../ in one component", [b"\n/../../decoy"], "beside-lf"),
+        # added after seeded change C13-12 (components longer than NAME_MAX skipped by the screening): escaping components of
+        # 256 bytes and more, every name in them short
+        ("escaping component of 270 bytes", [b"../" + b"./" * 131 + b"decoy"], "beside"),
+        ("absolute component padded to 300+ bytes", [S + b"/outside/" + b"./" * 150 + b"decoy"], "outside"),
+        ("escaping component of 270 bytes after a plain one", [b"d1", b"../../" + b"./" * 130 + b"decoy"], "beside-d1"),
+        # added after seeded change C13-11 (screening abandoned once the path is longer than PATH_MAX): an absolute component
+        # after more than 4096 bytes of ordinary ones - joining discards everything before it
+        ("absolute component after 21 names of 200 bytes", [b"n" * 200] * 21 + [S + b"/outside/decoy"], "outside"),
+        ("absolute component after 2100 one-byte names", [b"q"] * 2100 + [S + b"/outside/decoy"], "outside"),
+        ("absolute component after 17 names of 255 bytes", [b"m" * 255] * 17 + [S + b"/outside/decoy"], "outside"),
         # added after seeded change C13-5 (a second, unscreened spelling of `path`): the whole path as ONE byte string
         ("path as a joined byte string: ../decoy", b"../decoy", "beside"),
         ("path as a joined byte string: d1/../../decoy", b"d1/../../decoy", "beside-d1"),
@@ -109,8 +125,13 @@ def hostile_case(r, kind, pos, mode, rootname=b"root", pieces_without_hostile=Fa
     if tag.startswith(".. and back") and mode == "content":
         w.info[b"files"][pos][b"path"] = [b"..", b"the content", b"inner"]
     decoy = datas[pos]
-    if isinstance(where, tuple):
+    if isinstance(where, tuple) and where[0] == "sandbox":
+        vfy.tree_set(tree, list(where[1]), decoy)
+    elif isinstance(where, tuple):
         vfy.tree_set(tree, rootloc[:-1] + [where[1]], decoy)
+    elif where == "beside-lf":
+        vfy.tree_set(tree, rootloc[:-1] + [b"decoy"], decoy)
+        vfy.tree_set(tree, rootloc + [b"\n"], {})
     elif where == "beside":
         vfy.tree_set(tree, rootloc[:-1] + [b"decoy"], decoy)
     elif where == "above":
